@@ -47,7 +47,7 @@ m = {
         "kind_free_text": "Lean 4 (kernel-checked theorems about hand-written executable models, lean/) + Rust differential harnesses (harness/) that run the real code and the compiled Lean model on the same generated cases and evaluate the specification on the implementation's outputs",
     }],
     "checks": checks,
-    "notes": "One entry point: ./check <id> --tier quick|thorough. Known findings: known_findings.json. Design: DESIGN.md.",
+    "notes": "One entry point: ./check <id> --tier quick|thorough. Known findings: known_findings.json and known.d/*.json (never written at run time). Statements dropped from the obligations after the vacuity audit: props.d/Cxx+zrepair.py, listed per run under superseded_theorems in the evidence. Design and trusted base: DESIGN.md (section 0 = as built).",
     "not_applicable": [{"property_id": pid, "reason": PENDING_REASON.get(pid, "check not built yet in this session (work in progress; the technique applies, see DESIGN.md)")} for pid in ids if not ready(pid)],
 }
 json.dump(m, open(os.path.join(ROOT, "MANIFEST.json"), "w"), indent=1)
